@@ -67,7 +67,9 @@ func onlyUsedAsScrubArg(v ssa.Value) bool {
 
 // ruleErrorsBeforeData: in the listed functions, Response.Data may be used as a result only
 // where len(Response.Errors) == 0 is established for the same response, and the failing side
-// hands the errors on.
+// hands the errors on. The test may sit in the function that uses the data, in a function of the
+// module that is asked about the response (`se.isFinal(resp)`, `resp.Err()`), or — when the data
+// is used in a helper that is handed the response — around every call of that helper.
 func ruleErrorsBeforeData(fnNames ...string) ruleFn {
 	return func(r *Run) {
 		n := 0
@@ -84,8 +86,7 @@ func ruleErrorsBeforeData(fnNames ...string) ruleFn {
 				continue
 			}
 			name := fnName(fn)
-			reads := respReads(fn)
-			for _, rd := range reads {
+			for _, rd := range respReads(fn) {
 				if rd.field != "Data" {
 					continue
 				}
@@ -105,8 +106,6 @@ func ruleErrorsBeforeData(fnNames ...string) ruleFn {
 					}
 				}
 				n++
-				guarded := false
-				var failOK bool
 				// where the loaded data is used (the load itself may stand before the test:
 				// `data, errs := resp.Data, resp.Errors; if len(errs) != 0 { … }; use(data)`)
 				useBlocks := []*ssa.BasicBlock{}
@@ -124,97 +123,15 @@ func ruleErrorsBeforeData(fnNames ...string) ruleFn {
 				if len(useBlocks) == 0 {
 					useBlocks = append(useBlocks, rd.ins.Block())
 				}
-				coversUses := func(side *ssa.BasicBlock) bool {
-					for _, ub := range useBlocks {
-						if !(side == ub || side.Dominates(ub)) {
-							return false
-						}
-					}
-					return true
-				}
-				// a predicate of the module that is handed the response and answers false only
-				// when its error list is empty (`if se.isFinal(resp) { return resp }`)
-				for _, i2 := range allInstrs(fn) {
-					iff, ok := i2.(*ssa.If)
-					if !ok {
-						continue
-					}
-					cond, okSide, failSide := iff.Cond, iff.Block().Succs[1], iff.Block().Succs[0]
-					if u, ok := cond.(*ssa.UnOp); ok && u.Op == token.NOT {
-						cond, okSide, failSide = u.X, failSide, okSide
-					}
-					call, ok := cond.(*ssa.Call)
-					if !ok {
-						continue
-					}
-					sc := call.Call.StaticCallee()
-					if sc == nil || !inModule(sc) || sc.Blocks == nil {
-						continue
-					}
-					for ai, a := range call.Call.Args {
-						if !sameBase(unwrap(a), rd.base) || ai >= len(sc.Params) {
-							continue
-						}
-						if falseOnlyWhenNoErrors(sc, sc.Params[ai]) && len(okSide.Preds) == 1 && coversUses(okSide) {
-							guarded = true
-							if handsOnResponse(failSide, rd.base) {
-								failOK = true
-							}
-						}
-					}
-				}
-				for _, er := range reads {
-					if er.field != "Errors" || !sameBase(er.base, rd.base) {
-						continue
-					}
-					for _, t := range failureTests(er.val) {
-						// `errors` decoded from JSON may be `[]`: a nil test is not the length test
-						if bo, ok := t.iff.Cond.(*ssa.BinOp); ok && (isNilConst(bo.X) || isNilConst(bo.Y)) {
-							continue
-						}
-						if len(t.ok.Preds) == 1 && coversUses(t.ok) {
-							guarded = true
-							if sw, _ := r.swallowedWith(er.val, t, rd.base); !sw {
-								failOK = true
-							}
-						}
-						// the test may be folded into a named condition (`hasData := len(errs) == 0 &&
-						// data != nil; if !hasData { return resp }`): the use is guarded by a branch on
-						// a boolean that can only be true after the success side of the test was taken
-						if !guarded && len(t.ok.Preds) == 1 {
-							for _, i2 := range allInstrs(fn) {
-								iff, ok := i2.(*ssa.If)
-								if !ok {
-									continue
-								}
-								cond, side := iff.Cond, iff.Block().Succs[0]
-								if u, ok := cond.(*ssa.UnOp); ok && u.Op == token.NOT {
-									cond, side = u.X, iff.Block().Succs[1]
-								}
-								if len(side.Preds) != 1 || !coversUses(side) {
-									continue
-								}
-								if trueOnlyAfter(cond, t.ok, 0) {
-									guarded = true
-									// the other side of this branch is where a failing response goes
-									other := iff.Block().Succs[0]
-									if other == side {
-										other = iff.Block().Succs[1]
-									}
-									if handsOnResponse(other, rd.base) {
-										failOK = true
-									}
-								}
-							}
-						}
-					}
-				}
+				g := r.errorsGuard(fn, rd.base, useBlocks, 0)
 				site := r.P.pos(rd.ins.Pos())
 				switch {
-				case guarded && failOK:
-					r.OK("R13i.errors", name, "use of Response.Data", site, "dominated by len(Response.Errors) == 0 on the same response; the non-empty side returns/forwards the errors")
-				case guarded:
+				case g.guarded && g.failOK:
+					r.OK("R13i.errors", name, "use of Response.Data", site, "dominated by len(Response.Errors) == 0 on the same response"+g.where+"; the non-empty side returns/forwards the errors")
+				case g.guarded:
 					r.Bad("R13i.errors", name, "use of Response.Data", site, "errors of the response are tested but the failing side does not hand them on")
+				case g.overwritten != "":
+					r.Bad("R13i.errors", name, "use of Response.Data", site, "the error list that is tested before the data of a downstream response is used is not the one the service sent: a store into Response.Errors at "+g.overwritten+" can run before the test (errors dropped there no longer stop the data from being used as a success)")
 				default:
 					r.Bad("R13i.errors", name, "use of Response.Data", site, "the data of a downstream response is used as a result on a path where its `errors` may be non-empty: service errors are masked (the test must be `len(resp.Errors) != 0` alone, on the same response)")
 				}
@@ -222,6 +139,284 @@ func ruleErrorsBeforeData(fnNames ...string) ruleFn {
 		}
 		r.AtLeast("R13i.errors", "uses of Response.Data as a result", n, len(fnNames))
 	}
+}
+
+type errorsGuard struct {
+	guarded, failOK bool
+	where           string // says where the test is when it is not in the function itself
+	overwritten     string // position of a store into the Errors of the response ahead of its test
+}
+
+// errorsStoredBefore: a store into the Errors field of a response that may be `base`, which
+// the reading instruction `read` does not dominate and which the read can follow: the list that
+// is read can be the stored one, not the one the service sent. A Response allocated in this function and not `base` itself is
+// another object.
+func errorsStoredBefore(fn *ssa.Function, base ssa.Value, read ssa.Instruction) *ssa.Store {
+	for _, ins := range allInstrs(fn) {
+		st, ok := ins.(*ssa.Store)
+		if !ok {
+			continue
+		}
+		fa, ok := st.Addr.(*ssa.FieldAddr)
+		if !ok || namedOf(fa.X.Type()) != respType || fieldOf(fa) == nil || fieldOf(fa).Name() != "Errors" {
+			continue
+		}
+		if al, isAlloc := fa.X.(*ssa.Alloc); isAlloc && ssa.Value(al) != base && ssa.Value(al) != viaCell(base) && ssa.Value(al) != unwrap(base) {
+			// the cell a loaded struct value was read from is the same object
+			if ld, ok := base.(*ssa.UnOp); !ok || ld.Op != token.MUL || ld.X != ssa.Value(al) {
+				continue
+			}
+		}
+		if instrDominates(read, st) {
+			continue
+		}
+		// and the store can be followed by the read
+		if sb, rb := st.Block(), read.Block(); !(sb == rb && instrIdx(st) < instrIdx(read)) && !blockReach(sb)[rb] {
+			continue
+		}
+		return st
+	}
+	return nil
+}
+
+// errorsGuard: do the blocks `uses` of fn lie on the "no errors" side of a test of the Errors
+// of the response `base`?
+func (r *Run) errorsGuard(fn *ssa.Function, base ssa.Value, useBlocks []*ssa.BasicBlock, depth int) errorsGuard {
+	var g errorsGuard
+	reads := respReads(fn)
+	coversUses := func(side *ssa.BasicBlock) bool {
+		for _, ub := range useBlocks {
+			if !(side == ub || side.Dominates(ub)) {
+				return false
+			}
+		}
+		return true
+	}
+	// the argument a call hands the response in: the response itself, or — for a function that
+	// takes it by value — what its pointer points to
+	isResp := func(a ssa.Value) bool {
+		a = unwrap(a)
+		if sameBase(a, base) {
+			return true
+		}
+		if ld, ok := a.(*ssa.UnOp); ok && ld.Op == token.MUL && sameBase(ld.X, base) {
+			return true
+		}
+		return false
+	}
+	// a predicate of the module that is handed the response and answers false only
+	// when its error list is empty (`if se.isFinal(resp) { return resp }`)
+	for _, i2 := range allInstrs(fn) {
+		iff, ok := i2.(*ssa.If)
+		if !ok {
+			continue
+		}
+		cond, okSide, failSide := iff.Cond, iff.Block().Succs[1], iff.Block().Succs[0]
+		if u, ok := cond.(*ssa.UnOp); ok && u.Op == token.NOT {
+			cond, okSide, failSide = u.X, failSide, okSide
+		}
+		call, ok := cond.(*ssa.Call)
+		if !ok {
+			continue
+		}
+		sc := call.Call.StaticCallee()
+		if sc == nil || !inModule(sc) || sc.Blocks == nil {
+			continue
+		}
+		for ai, a := range call.Call.Args {
+			if !isResp(a) || ai >= len(sc.Params) {
+				continue
+			}
+			if falseOnlyWhenNoErrors(sc, sc.Params[ai]) && len(okSide.Preds) == 1 && coversUses(okSide) {
+				if st := errorsStoredBefore(fn, base, call); st != nil {
+					g.overwritten = r.P.pos(st.Pos())
+					continue
+				}
+				g.guarded = true
+				if handsOnResponse(failSide, base) {
+					g.failOK = true
+				}
+			}
+		}
+	}
+	// a function of the module that is handed the response and answers with an error which is
+	// nil only when the error list is empty (`if err := resp.Err(); err != nil { return nil, err }`)
+	for _, i2 := range allInstrs(fn) {
+		call, ok := i2.(*ssa.Call)
+		if !ok || !types.Identical(call.Type(), types.Universe.Lookup("error").Type()) {
+			continue
+		}
+		sc := call.Call.StaticCallee()
+		if sc == nil {
+			continue
+		}
+		d := r.P.declared(sc)
+		if d == nil || !inModule(d) || d.Blocks == nil {
+			continue
+		}
+		for ai, a := range call.Call.Args {
+			if !isResp(a) || ai >= len(d.Params) || !nilOnlyWhenNoErrors(d, d.Params[ai]) {
+				continue
+			}
+			for _, t := range failureTests(call) {
+				if len(t.ok.Preds) != 1 || !coversUses(t.ok) {
+					continue
+				}
+				if st := errorsStoredBefore(fn, base, call); st != nil {
+					g.overwritten = r.P.pos(st.Pos())
+					continue
+				}
+				g.guarded = true
+				g.where = " (asked through " + fnName(d) + ", which answers nil only for an empty list)"
+				if sw, _ := r.swallowedWith(call, t, base); !sw {
+					g.failOK = true
+				}
+			}
+		}
+	}
+	for _, er := range reads {
+		if er.field != "Errors" || !sameBase(er.base, base) {
+			continue
+		}
+		for _, t := range failureTests(er.val) {
+			// `errors` decoded from JSON may be `[]`: a nil test is not the length test
+			if bo, ok := t.iff.Cond.(*ssa.BinOp); ok && (isNilConst(bo.X) || isNilConst(bo.Y)) {
+				continue
+			}
+			if st := errorsStoredBefore(fn, er.base, er.ins); st != nil {
+				if len(t.ok.Preds) == 1 && coversUses(t.ok) {
+					g.overwritten = r.P.pos(st.Pos())
+				}
+				continue
+			}
+			if len(t.ok.Preds) == 1 && coversUses(t.ok) {
+				g.guarded = true
+				if sw, _ := r.swallowedWith(er.val, t, base); !sw {
+					g.failOK = true
+				}
+			}
+			// the test may be folded into a named condition (`hasData := len(errs) == 0 &&
+			// data != nil; if !hasData { return resp }`): the use is guarded by a branch on
+			// a boolean that can only be true after the success side of the test was taken
+			if !g.guarded && len(t.ok.Preds) == 1 {
+				for _, i2 := range allInstrs(fn) {
+					iff, ok := i2.(*ssa.If)
+					if !ok {
+						continue
+					}
+					cond, side := iff.Cond, iff.Block().Succs[0]
+					if u, ok := cond.(*ssa.UnOp); ok && u.Op == token.NOT {
+						cond, side = u.X, iff.Block().Succs[1]
+					}
+					if len(side.Preds) != 1 || !coversUses(side) {
+						continue
+					}
+					if trueOnlyAfter(cond, t.ok, 0) {
+						g.guarded = true
+						// the other side of this branch is where a failing response goes
+						other := iff.Block().Succs[0]
+						if other == side {
+							other = iff.Block().Succs[1]
+						}
+						if handsOnResponse(other, base) {
+							g.failOK = true
+						}
+					}
+				}
+			}
+		}
+	}
+	if g.guarded || depth >= 2 {
+		return g
+	}
+	// the data is used in a helper that is handed the response: the test stands around every
+	// call of the helper
+	p, isParam := unwrap(base).(*ssa.Parameter)
+	if !isParam || p.Parent() != fn {
+		return g
+	}
+	pi := -1
+	for i, q := range fn.Params {
+		if q == p {
+			pi = i
+		}
+	}
+	edges := r.P.CG.In[fn]
+	if pi < 0 || len(edges) == 0 {
+		return g
+	}
+	all := errorsGuard{guarded: true, failOK: true}
+	var callers []string
+	for _, e := range edges {
+		c, isCall := e.Site.(*ssa.Call)
+		if !isCall || e.Kind != "static" || pi >= len(c.Call.Args) {
+			return g
+		}
+		cg := r.errorsGuard(e.Caller, unwrap(c.Call.Args[pi]), []*ssa.BasicBlock{c.Block()}, depth+1)
+		if !cg.guarded {
+			if cg.overwritten != "" {
+				g.overwritten = cg.overwritten
+			}
+			return g
+		}
+		all.failOK = all.failOK && cg.failOK
+		callers = append(callers, fnName(e.Caller))
+	}
+	sort.Strings(callers)
+	all.where = " (the test stands in " + strings.Join(callers, ", ") + ", around every call that hands the response in)"
+	return all
+}
+
+// nilOnlyWhenNoErrors: the function (handed a response, returning an error) can answer nil only
+// after the "no errors" side of a length test of that response's Errors was taken; every other
+// return hands back a value wrapped into the error interface, which is never nil.
+func nilOnlyWhenNoErrors(f *ssa.Function, param *ssa.Parameter) bool {
+	if f.Signature.Results().Len() != 1 {
+		return false
+	}
+	for _, rd := range respReads(f) {
+		if rd.field != "Errors" || unwrap(rd.base) != ssa.Value(param) && !loadOfParamCell(rd.base, param) {
+			continue
+		}
+		for _, t := range failureTests(rd.val) {
+			if bo, ok := t.iff.Cond.(*ssa.BinOp); ok && (isNilConst(bo.X) || isNilConst(bo.Y)) {
+				continue
+			}
+			if len(t.ok.Preds) != 1 {
+				continue
+			}
+			if errorsStoredBefore(f, rd.base, rd.ins) != nil {
+				continue
+			}
+			all := true
+			for _, ret := range returnsOf(f) {
+				v := retVals(ret)[0]
+				if _, isMI := v.(*ssa.MakeInterface); isMI {
+					continue
+				}
+				if b := ret.Block(); !(b == t.ok || t.ok.Dominates(b)) {
+					all = false
+				}
+			}
+			if all {
+				return true
+			}
+		}
+	}
+	return false
+}
+
+// loadOfParamCell: base is the cell a by-value parameter was spilled into (or a load of it).
+func loadOfParamCell(base ssa.Value, param *ssa.Parameter) bool {
+	if ld, ok := base.(*ssa.UnOp); ok && ld.Op == token.MUL {
+		base = ld.X
+	}
+	al, ok := base.(*ssa.Alloc)
+	if !ok {
+		return false
+	}
+	sts := storesTo(al)
+	return len(sts) == 1 && sts[0].Val == ssa.Value(param)
 }
 
 func sameBase(a, b ssa.Value) bool {
@@ -244,7 +439,16 @@ func sameBase(a, b ssa.Value) bool {
 		if ia != nil && ib != nil && ia.X == ib.X && ia.Index == ib.Index {
 			for _, ins := range allInstrs(ia.Parent()) {
 				if st, ok := ins.(*ssa.Store); ok {
-					if w, ok := st.Addr.(*ssa.IndexAddr); ok && w.X == ia.X {
+					// the element as a whole, or one of its fields (`resps[i].Errors = …`)
+					addr := st.Addr
+					for {
+						fa, ok := addr.(*ssa.FieldAddr)
+						if !ok {
+							break
+						}
+						addr = fa.X
+					}
+					if w, ok := addr.(*ssa.IndexAddr); ok && w.X == ia.X {
 						return false
 					}
 				}
